@@ -161,7 +161,9 @@ def run(ctx):
     for kinds in targets:
         for sq in (["close", "bindw", "close"], ["close", "bindr", "cr", "close"], ["close", "bindl", "tl", "close"],
                    ["close", "bindm", "tm", "close"], ["bindw", "close", "bindw", "wait", "close"], ["bindw", "bindw", "wait", "close"],
-                   ["bindw", "bindm", "close", "tm", "unbindm", "close"], ["bindw", "bindl", "close", "tl", "unbindl", "close"]):
+                   ["bindw", "bindm", "close", "tm", "unbindm", "close"], ["bindw", "bindl", "close", "tl", "unbindl", "close"],
+                   ["close", "bindr", "bindl", "tl", "tl", "cr", "wait", "cr", "wait", "close"],
+                   ["bindw", "bindr", "close", "bindl", "bindm", "tl", "tm", "tm", "cr", "cw", "wait", "close"]):
             scripts.append(to_script(rng, kinds, sq, []))
     # a second PLI-enabled stream bound before the loop exists blocks (known finding); Close must still release it and return
     for kinds in (["pli"], ["pli", "nackgen", "rrecv"], ["stats", "pli"]):
